@@ -18,6 +18,57 @@ import (
 type History struct {
 	Script  string
 	Batches []Batch
+
+	// Lazy histories (large cardinality ramps) generate batch k on demand, in order, and keep only
+	// the batches that have not been forgotten yet: N batches, Gen(k) called once for k = 0..N-1.
+	N     int
+	Gen   func(k int) Batch
+	cache map[int]Batch
+	next  int
+}
+
+// Len is the number of batches of the history.
+func (h *History) Len() int {
+	if h.Gen != nil {
+		return h.N
+	}
+	return len(h.Batches)
+}
+
+// At returns batch k (lazy histories must be walked in order).
+func (h *History) At(k int) Batch {
+	if h.Gen == nil {
+		return h.Batches[k]
+	}
+	if h.cache == nil {
+		h.cache = map[int]Batch{}
+	}
+	for h.next <= k {
+		h.cache[h.next] = h.Gen(h.next)
+		h.next++
+	}
+	return h.cache[k]
+}
+
+// Has reports whether batch k is available without generating anything.
+func (h *History) Has(k int) bool {
+	if h.Gen == nil {
+		return k >= 0 && k < len(h.Batches)
+	}
+	_, ok := h.cache[k]
+	return ok
+}
+
+// Forget drops the batches of a lazy history up to and including k.
+func (h *History) Forget(k int) {
+	if h.Gen == nil {
+		return
+	}
+	for i := range h.cache {
+		if i <= k {
+			delete(h.cache, i)
+		}
+	}
 }
 
 func genBatch(g *gen.G, sig canon.Signal, n int) Batch {
@@ -305,10 +356,15 @@ func TemplateHistory(r *rand.Rand, sig canon.Signal, ti int) *History {
 func RampHistory(r *rand.Rand, sig canon.Signal, nb, n int, highReuse bool) *History {
 	h := &History{Script: fmt.Sprintf("ramp(reuse=%v)", highReuse)}
 	ctr := 0
+	// pool grows by ~n/8 per batch, each value reused ~8 times; the large ramps (which must cross
+	// 65,535 entries) grow by n/4 so that the crossing costs half the items (new/total stays < 0.3)
+	reuse := 8
+	if n >= 20000 {
+		reuse = 4
+	}
 	val := func() int {
 		if highReuse {
-			// pool grows by ~n/8 per batch, each value reused ~8 times
-			if r.IntN(8) == 0 {
+			if r.IntN(reuse) == 0 {
 				ctr++
 			}
 			if ctr == 0 {
@@ -319,7 +375,7 @@ func RampHistory(r *rand.Rand, sig canon.Signal, nb, n int, highReuse bool) *His
 		ctr++
 		return ctr
 	}
-	for k := 0; k < nb; k++ {
+	gen := func(k int) Batch {
 		switch sig {
 		case canon.Traces:
 			td := ptrace.NewTraces()
@@ -350,7 +406,7 @@ func RampHistory(r *rand.Rand, sig canon.Signal, nb, n int, highReuse bool) *His
 				}
 				s.Status().SetMessage(fmt.Sprintf("msg-%d", v))
 			}
-			h.Batches = append(h.Batches, TB(td))
+			return TB(td)
 		case canon.Logs:
 			ld := plog.NewLogs()
 			rl := ld.ResourceLogs().AppendEmpty()
@@ -378,7 +434,7 @@ func RampHistory(r *rand.Rand, sig canon.Signal, nb, n int, highReuse bool) *His
 				l.Attributes().PutStr(fmt.Sprintf("k%d", v%300), fmt.Sprintf("v%d", v))
 				l.Attributes().PutInt("n", int64(v))
 			}
-			h.Batches = append(h.Batches, LB(ld))
+			return LB(ld)
 		default:
 			md := pmetric.NewMetrics()
 			rm := md.ResourceMetrics().AppendEmpty()
@@ -415,8 +471,16 @@ func RampHistory(r *rand.Rand, sig canon.Signal, nb, n int, highReuse bool) *His
 					dp.Attributes().PutStr("s", fmt.Sprintf("v%d", v))
 				}
 			}
-			h.Batches = append(h.Batches, MB(md))
+			return MB(md)
 		}
 	}
+	if nb*n <= 40000 {
+		// small ramps are materialised (several engines index h.Batches directly)
+		for k := 0; k < nb; k++ {
+			h.Batches = append(h.Batches, gen(k))
+		}
+		return h
+	}
+	h.N, h.Gen = nb, gen
 	return h
 }
